@@ -101,7 +101,8 @@ IgmpMism(e) ==
   IF k[1] = "err" THEN (IF e.ok # 0 THEN {"igmp.accepted"} ELSE IF e.req # k[2] \/ e.len # n THEN {"igmp.len_error"} ELSE {})
   ELSE IF e.ok # 1 THEN {"igmp.rejected"}
   ELSE (IF e.kind # k[1] THEN {"igmp.kind:" \o e.kind \o "/" \o k[1]} ELSE {}) \cup (IF e.hlen # k[2] THEN {"igmp.header_len"} ELSE {})
-       \cup (IF e.norm # NormIgmp(b, k[2]) THEN {"igmp.fields:" \o k[1]} ELSE {}) \cup (IF e.rest # <<k[2], n - k[2]>> /\ ~(n = k[2] /\ e.rest[2] = 0) THEN {"igmp.rest_range"} ELSE {})
+       \cup (IF e.norm # NormIgmp(b, k[2]) THEN {"igmp.fields:" \o k[1]} ELSE {})
+       \cup (IF e.tf # IgmpTyped(b, k[1]) THEN {"igmp.typed_fields:" \o k[1]} ELSE {}) \cup (IF e.back # 1 THEN {"igmp.encode_decode"} ELSE {}) \cup (IF e.rest # <<k[2], n - k[2]>> /\ ~(n = k[2] /\ e.rest[2] = 0) THEN {"igmp.rest_range"} ELSE {})
 
 GroupRecMism(e) ==
   LET b == e.bytes  n == Len(b) IN
